@@ -649,6 +649,11 @@ fn read_code<C: CodeVisitor>(
 				Ok(())
 			})()
 				.with_context(|| anyhow!("at bytecode offset {}", opcode_pos))?;
+
+			// The operands are skipped by seeking, which doesn't notice the end of the bytecode.
+			if r.position() > bytecode.len() as u64 {
+				bail!("the instruction at bytecode offset {opcode_pos} extends beyond the end of the code");
+			}
 		}
 	}
 
